@@ -55,6 +55,7 @@ VARIANTS = {
     "asan": dict(cc="clang", cflags=["-O1", "-g"] + SAN, ldflags=SAN),
     "asansmall": dict(cc="clang", cflags=["-O1", "-g"] + SAN + SMALL, ldflags=SAN),
     "sched": dict(cc="gcc", cflags=["-O1", "-g"] + SCHED),
+    "schedsmall": dict(cc="gcc", cflags=["-O1", "-g"] + SCHED + SMALL),
     "schedasan": dict(cc="clang", cflags=["-O1", "-g"] + SAN + SCHED, ldflags=SAN),
     "tsan": dict(cc="clang", cflags=["-O1", "-g", "-fsanitize=thread"], ldflags=["-fsanitize=thread"]),
     "cov": dict(cc="gcc", cflags=["-O0", "-g0", "-DYYDEBUG=1"]),
